@@ -7,6 +7,7 @@ import (
 	"crypto/ecdsa"
 	"encoding/json"
 	"fmt"
+	"os"
 	"sort"
 	"testing"
 	"time"
@@ -28,7 +29,8 @@ import (
 
 const (
 	chain   = "eth-a"
-	refBase = 123 // reference block height the chain was added with (env.NewE1)
+	chainB  = "eth-b" // second active chain: every validator registers a different key there
+	refBase = 123     // reference block height the chain was added with (env.NewE1)
 	abiJSON = `[{"inputs":[],"name":"foo","outputs":[],"stateMutability":"nonpayable","type":"function"}]`
 )
 
@@ -45,6 +47,8 @@ type args struct {
 	X    int    `json:"x"`
 	E    int    `json:"e"`
 	Dh   int    `json:"dh"`
+	Snap bool   `json:"snap"` // ReRegister: rebuild the snapshot afterwards
+	Same bool   `json:"same"` // Reassign: prefer the block time at which every message keeps its assignee
 }
 
 type world struct {
@@ -57,8 +61,10 @@ type world struct {
 func newWorld() *world {
 	// shares 5000000 : 3000001 : 1000002 : 1000000 (total 10000003): the last validator holds exactly
 	// floor(total/10) shares and the total is not a multiple of 3 or 10 (boundary cases of the 2/3 and 10% rules)
-	e := env.NewE1(env.E1Options{Seed: drv.Seed(), Chains: []string{chain}, Powers: []int64{5, 3, 1, 1}, ExtraStake: []int64{0, 1, 2, 0}})
-	e.AddLateValidator(e.Ctx, 2)  // bonded, not in the snapshot
+	e := env.NewE1(env.E1Options{Seed: drv.Seed(), Chains: []string{chain, chainB}, PerChainKeys: true, Powers: []int64{5, 3, 1, 1}, ExtraStake: []int64{0, 1, 2, 0}})
+	if os.Getenv("VERIF_CQ_NOLATE") == "" {
+		e.AddLateValidator(e.Ctx, 2) // bonded, not in the snapshot
+	}
 	e.Consensus.LateInject(e.Evm) // as app.go does
 	if err := e.Treasury.SetCommunityFundFee(e.Ctx, "0.01"); err != nil {
 		panic(err)
@@ -151,6 +157,9 @@ func (r *run) observe() map[string]any {
 		}
 		for _, m := range ms {
 			id := int(m.GetId())
+			if _, mine := r.kinds[id]; !mine {
+				continue // queued by the chain itself (e.g. the valset update a snapshot rebuild publishes), not by this history
+			}
 			kind := "ref"
 			if q == slcQueue {
 				kind = "slc"
@@ -189,7 +198,14 @@ func (r *run) observe() map[string]any {
 				}
 			}
 			for _, s := range m.GetSignData() {
-				sigs = append(sigs, map[string]any{"val": r.valIdx(s.ValAddress), "valid": verify(bts, s.Signature, s.PublicKey),
+				// valid = verifies against the current bytes under a key the validator registered FOR THIS CHAIN
+				reg := false
+				for _, k := range r.keys[r.valIdx(s.ValAddress)] {
+					if crypto.PubkeyToAddress(k.PublicKey) == common.BytesToAddress(s.PublicKey) {
+						reg = true
+					}
+				}
+				sigs = append(sigs, map[string]any{"val": r.valIdx(s.ValAddress), "valid": reg && verify(bts, s.Signature, s.PublicKey), "reg": reg,
 					"key": common.BytesToAddress(s.PublicKey).Hex()[2:10], "addrMatches": common.HexToAddress(s.ExternalAccountAddress) == common.BytesToAddress(s.PublicKey)})
 			}
 			fees := false
@@ -310,6 +326,10 @@ func (r *run) step(s drv.Step) (string, map[string]any) {
 				old = vs[len(vs)-2]
 			}
 			sig = ethSign(old, r.curKey(a.V))
+		case "otherchain": // the key this validator registered for ANOTHER chain, named as signer
+			kb := e.KeyFor(v, chainB)
+			signedBy = crypto.PubkeyToAddress(kb.PublicKey).Hex()
+			sig = ethSign(bts, kb)
 		case "badkey":
 			k, _ := crypto.ToECDSA(crypto.Keccak256([]byte(fmt.Sprintf("verif-other-key-%d", a.V))))
 			sig = ethSign(bts, k)
@@ -356,10 +376,18 @@ func (r *run) step(s drv.Step) (string, map[string]any) {
 		k, _ := crypto.ToECDSA(crypto.Keccak256([]byte(fmt.Sprintf("verif-rereg-%d-%d-%d", drv.Seed(), a.V, len(r.keys[a.V])))))
 		addr := crypto.PubkeyToAddress(k.PublicKey)
 		res := run(func(ctx sdk.Context) error {
-			return e.Valset.AddExternalChainInfo(ctx, v.Val, []*valsettypes.ExternalChainInfo{{ChainType: "evm", ChainReferenceID: chain, Address: addr.Hex(), Pubkey: addr.Bytes()}})
+			kb := crypto.PubkeyToAddress(e.KeyFor(v, chainB).PublicKey) // the account on the other chain stays as it is
+			return e.Valset.AddExternalChainInfo(ctx, v.Val, []*valsettypes.ExternalChainInfo{
+				{ChainType: "evm", ChainReferenceID: chain, Address: addr.Hex(), Pubkey: addr.Bytes()},
+				{ChainType: "evm", ChainReferenceID: chainB, Address: kb.Hex(), Pubkey: kb.Bytes()}})
 		})
 		if res == "ok" {
 			r.keys[a.V] = append(r.keys[a.V], k)
+			if a.Snap { // the snapshot is rebuilt: the assigner hands out the new address from now on
+				if _, err := e.Valset.TriggerSnapshotBuild(r.ctx); err != nil {
+					panic(err)
+				}
+			}
 		}
 		return res, extra
 	case "Reassign":
@@ -383,6 +411,9 @@ func (r *run) step(s drv.Step) (string, map[string]any) {
 				if before[id] != a {
 					changed = true
 				}
+			}
+			if a.Same { // prefer the outcome that keeps every assignee (whose remote address may have changed)
+				changed = !changed
 			}
 			if changed || k == 4 {
 				write()
